@@ -46,7 +46,7 @@ prev == Log[l - 1]
 IsStep == cur.op # "Reset"
 
 IsApp(e) == e.op \in {"AppWrite", "AppWrite2", "AppGrow", "AppGrowWrite", "AppShrink", "AppDelete", "AppReclaim", "AppVacuum", "AppDDL", "AppBegin", "AppSpill",
-                      "AppCommit", "AppRollback", "AppCheckpoint", "AppHoldWrite", "AppJoin", "AppClose", "AppOpen", "ReaderOpen", "ReaderClose"}
+                      "AppCommit", "AppRollback", "AppCheckpoint", "AppHoldWrite", "AppJoin", "AppClose", "AppOpen", "ReaderOpen", "ReaderClose", "ParApp"}
 IsLs(e)  == e.op \in {"ParStep", "ParEnd", "LsOpen", "LsSync", "LsReplicaSync", "LsSyncAndWait", "LsCheckpoint", "LsClose", "LsReset",
                       "Snapshot", "Compact", "CkStart", "CkStep"}
 \* a litestream checkpoint, either as one call (LsCheckpoint) or step by step (CkStart, CkStep: res = "at" while parked at a hook)
@@ -161,7 +161,8 @@ C04_ResnapshotAfterLoss_ ==
 
 (* C02: every TXID restores to one committed state; order preserved; level 0 gapless from 1 *)
 Ledger(t) == {k \in 1..Len(Log) : Log[k].t = t /\ Log[k].op # "Audit"}
-Matches(a, t, from) == {k \in Ledger(t) : k >= from /\ SameExcept(a.state, Log[k].src, Log[k].seqPg) /\ a.app = Log[k].app}
+\* (a ParApp line is an application transaction committed inside a Par block: only its application-visible content is recorded)
+Matches(a, t, from) == {k \in Ledger(t) : k >= from /\ (Log[k].op = "ParApp" \/ SameExcept(a.state, Log[k].src, Log[k].seqPg)) /\ a.app = Log[k].app}
 RECURSIVE MonoOK(_, _, _, _)
 MonoOK(au, j, t, from) ==
   IF j > Len(au) THEN TRUE
@@ -221,7 +222,7 @@ C06_LevelsContiguous_ ==
 
 \* the restored database is one of the recorded committed states, not older than the last acknowledged one
 RestoredIsCommitted(e, from) ==
-  \E k \in from..l : Log[k].op # "Audit" /\ SameExcept(e.rest.state, Log[k].src, Log[k].seqPg) /\ e.rest.app = Log[k].app
+  \E k \in from..l : Log[k].op # "Audit" /\ (Log[k].op = "ParApp" \/ SameExcept(e.rest.state, Log[k].src, Log[k].seqPg)) /\ e.rest.app = Log[k].app
 \* C07: retention never deletes what the latest restore needs
 C07_LatestStillRestorable_ ==
   (IsStep /\ IsRetention(cur) /\ cur.rest.done) => (cur.rest.ok /\ RestoredIsCommitted(cur, lastAck))
